@@ -71,6 +71,16 @@ class Heap:
 PMODELS = {}
 
 
+import re as _re_mod
+_OPS_RE = _re_mod.compile(r"^<&?(?:'a )?(?:u8|u16|u32|u64|u128|usize|i8|i16|i32|i64|i128|isize) as std::ops::(?:Add|Sub|Mul|Div|Rem|BitAnd|BitOr|BitXor|Shl|Shr)"
+                          r"<&?(?:'a )?(?:u8|u16|u32|u64|u128|usize|i8|i16|i32|i64|i128|isize)>>::(add|sub|mul|div|rem|bitand|bitor|bitxor|shl|shr)$")
+_ORD_RE = _re_mod.compile(r"^(?:std|core)::cmp::impls::<impl std::cmp::Ord for (u8|u16|u32|u64|u128|usize|i8|i16|i32|i64|i128|isize)>::(min|max|clamp)$")
+
+
+_PORD_RE = _re_mod.compile(r"^(?:core|std)::(?:tuple|array|option|slice::cmp|cmp::impls)::.*<impl std::cmp::PartialOrd.*>::(lt|le|gt|ge)$|"
+                           r"^<std::option::Option<T> as std::cmp::PartialOrd>::(lt|le|gt|ge)$")
+
+
 class _Resume(Exception):
     """raised by a model that has already positioned the state itself (nothing to store, no block to enter)"""
 
@@ -792,6 +802,34 @@ class PEval(Folder):
         fidx = len(st.frames) - 1
         if t.get("target") is None:
             raise _Abort("diverge", "diverging call to %s at %s:%s" % (name, t.get("file"), t.get("line")))
+        m_op = _OPS_RE.match(name) if name else None
+        if m_op and len(args) == 2:
+            # `a + &b`, `&a * &b`, ...: the operator on the referenced integers
+            a, b = _deref_all(self, st, args[0]), _deref_all(self, st, args[1])
+            opn = {"add": "Add", "sub": "Sub", "mul": "Mul", "div": "Div", "rem": "Rem", "bitand": "BitAnd", "bitor": "BitOr",
+                   "bitxor": "BitXor", "shl": "Shl", "shr": "Shr"}[m_op.group(1)]
+            v = self._binop(st, opn, a, b)
+            if v != TOP and v[0] == "tuple" and len(v[1]) == 2:
+                v = v[1][0]
+            self._store(st, fidx, t["dest"], v)
+            self._enter_block(st, t["target"])
+            return
+        if name and _PORD_RE.match(name) and len(args) == 2:
+            v = _partial_ord(self, st, args, t)
+            self._store(st, fidx, t["dest"], v)
+            self._enter_block(st, t["target"])
+            return
+        m_ord = _ORD_RE.match(name) if name else None
+        if m_ord and all(a != TOP and a[0] == "int" for a in args):
+            vals = [a[2] for a in args]
+            how = m_ord.group(2)
+            if how == "clamp" and vals[1] > vals[2]:
+                raise _Abort("diverge", "clamp with min > max")
+            r_ = {"min": lambda: min(vals[0], vals[1]), "max": lambda: max(vals[0], vals[1]),
+                  "clamp": lambda: max(vals[1], min(vals[2], vals[0]))}[how]()
+            self._store(st, fidx, t["dest"], mk_int(m_ord.group(1), r_))
+            self._enter_block(st, t["target"])
+            return
         if name and name.startswith("std::convert::num::<impl std::convert::From<") and not name.startswith("std::convert::num::<impl std::convert::From<bool>") \
                 and len(args) == 1 and args[0] != TOP and args[0][0] in ("int", "float"):
             # lossless numeric widening: From<u8> for u32 / f64, From<f32> for f64, ...
@@ -870,6 +908,20 @@ class PEval(Folder):
             if len(cands) == 1:
                 name = cands[0]
         callee = self.facts.fn(name) if name else None
+        if callee is None and t.get("callee") is None and t.get("trait") and args and name:
+            # an unresolved call of a trait method (inside a default method body): dispatch on the receiver's type
+            recv = _deref_all(self, st, args[0])
+            if recv != TOP and recv[0] in ("adt", "enum"):
+                meth = name.rsplit("::", 1)[1]
+                for cand in ("<%s as %s>::%s" % (recv[1], t["trait"], meth),):
+                    if self.facts.fn(cand) is not None:
+                        name, callee = cand, self.facts.fn(cand)
+                        break
+                else:
+                    # not overridden by the impl: the trait's provided method
+                    prov = "%s::%s" % (t["trait"], meth)
+                    if self.facts.fn(prov) is not None:
+                        name, callee = prov, self.facts.fn(prov)
         if callee is not None and callee.raw["kind"] == "Closure":
             # Fn*/call*(env, (a, b, ..)): the closure body takes its arguments untupled
             if len(args) == 2 and args[1] != TOP and args[1][0] == "tuple":
@@ -1055,8 +1107,36 @@ def _as_iter(pe, st, v):
         return ("iter", tuple(mk_int(ty, x) for x in range(lo[2], hi[2])), 0)
     if v[0] == "array":
         return ("iter", tuple(v[1]), 0)
+    if v[0] == "adt" and v[1] == "std::ops::RangeInclusive" and len(v[4]) >= 2:
+        lo, hi = v[4][0], v[4][1]
+        ex = v[4][2] if len(v[4]) > 2 else ("bool", False)
+        if lo == TOP or hi == TOP or lo[0] != "int" or hi[0] != "int" or ex == TOP or ex[0] != "bool":
+            return None
+        ty = lo[1] or hi[1] or "usize"
+        return ("iter", () if ex[1] else tuple(mk_int(ty, x) for x in range(lo[2], hi[2] + 1)), 0)
     if v[0] == "adt" and v[1] in ("std::option::Option", "core::option::Option"):
         return ("iter", tuple(v[4][:1]) if v[3] == "Some" else (), 0)  # an Option iterates over its zero or one value
+    if v[0] == "adt" and st is not None:
+        # a type of the crate with its own Iterator impl: run its next() until it answers None
+        for cand in ("<%s as std::iter::Iterator>::next" % v[1], "<%s<'_> as std::iter::Iterator>::next" % v[1],
+                     "<%s<'a> as std::iter::Iterator>::next" % v[1]):
+            if pe.facts.fn(cand) is not None:
+                fr = st.frames[-1]
+                key = "iter-state-%d" % len(fr[1])
+                fr[1][key] = v
+                fidx = len(st.frames) - 1
+                out = []
+                try:
+                    for _ in range(200000):
+                        o = pe.invoke_closure(st, ("fn", cand), [("ref", ("place", fidx, key, ()))])
+                        if o == TOP or o[0] != "adt" or o[1] != "std::option::Option":
+                            return None
+                        if o[3] != "Some":
+                            return ("iter", tuple(out), 0)
+                        out.append(o[4][0])
+                finally:
+                    fr[1].pop(key, None)
+                return None
     if v[0] == "enum" and v[1] in ("std::option::Option", "core::option::Option"):
         return ("iter", (), 0)
     if v[0] == "ref":
@@ -1084,6 +1164,7 @@ def _as_iter(pe, st, v):
         "core::slice::iter::<impl std::iter::IntoIterator for &'a mut [T]>::into_iter",
         "<&'a std::vec::Vec<T, A> as std::iter::IntoIterator>::into_iter", "<&'a mut std::vec::Vec<T, A> as std::iter::IntoIterator>::into_iter",
         "core::array::iter::<impl std::iter::IntoIterator for &'a [T; N]>::into_iter",
+        "core::array::<impl std::iter::IntoIterator for &'a [T; N]>::into_iter", "core::array::<impl std::iter::IntoIterator for &'a mut [T; N]>::into_iter",
         "core::array::iter::<impl std::iter::IntoIterator for &'a mut [T; N]>::into_iter",
         "std::array::iter::<impl std::iter::IntoIterator for [T; N]>::into_iter",
         "core::slice::iter::<impl std::iter::IntoIterator for &'a [T]>::into_iter", "core::slice::<impl [T]>::iter")
@@ -1093,12 +1174,15 @@ def _into_iter(pe, st, args, t):
         tgt = pe._load_ptr(st, a0[1])
         if tgt != TOP and tgt[0] == "iter":
             return a0  # `for x in iter.by_ref()` / `for x in &mut iter`: the reference itself is the iterator
+    name = t.get("callee") or ""
+    if a0 != TOP and a0[0] == "adt" and name.startswith("<I as ") and a0[1] not in (
+            "std::ops::Range", "std::ops::RangeInclusive", "std::option::Option", "core::option::Option"):
+        return a0  # blanket impl: an Iterator is its own IntoIterator; a crate iterator type is driven through its own next()
     it = _as_iter(pe, st, args[0])
     if it is None:
         v = args[0]
-        name = t.get("callee") or ""
         if v != TOP and v[0] == "adt" and name.startswith("<I as "):
-            return v  # blanket impl: an Iterator is its own IntoIterator (crate iterator types)
+            return v
         raise _Abort("top", "iterator over an unknown sequence at %s:%s" % (t.get("file"), t.get("line")))
     return it
 
@@ -1252,6 +1336,248 @@ def _prim_default(pe, st, args, t):
 for _ty in ("u8", "u16", "u32", "u64", "u128", "usize", "i8", "i16", "i32", "i64", "i128", "isize", "bool", "f64", "f32",
             "std::string::String", "std::vec::Vec<T>", "std::option::Option<T>"):
     PMODELS["<%s as std::default::Default>::default" % _ty] = _prim_default
+
+
+@pmodel("core::array::<impl [T; N]>::map", "std::array::<impl [T; N]>::map")
+def _array_map(pe, st, args, t):
+    v = args[0]
+    if v == TOP or v[0] != "array":
+        raise _Abort("top", "array::map of an unknown array")
+    return ("array", tuple(pe.invoke_closure(st, args[1], [x]) for x in v[1]))
+
+
+@pmodel("std::ops::Range::<Idx>::contains", "std::ops::RangeInclusive::<Idx>::contains", "std::ops::Range::<Idx>::is_empty",
+        "<std::ops::Range<usize> as std::iter::ExactSizeIterator>::len", "std::iter::ExactSizeIterator::len")
+def _range_queries(pe, st, args, t):
+    nm = (t.get("callee") or t.get("declared") or "").rsplit("::", 1)[1]
+    r = _deref_all(pe, st, args[0])
+    it = _finite(_as_iter(pe, st, r), nm)
+    if it is None:
+        raise _Abort("top", "%s() of an unknown range" % nm)
+    vals = it[1][it[2]:]
+    if nm == "len":
+        return mk_int("usize", len(vals))
+    if nm == "is_empty":
+        return mk_bool(not vals)
+    x = _deref_all(pe, st, args[1])
+    if x == TOP or x[0] != "int" or any(v == TOP or v[0] != "int" for v in vals):
+        raise _Abort("top", "contains() with unknown values")
+    return mk_bool(any(v[2] == x[2] for v in vals))
+
+
+def _sort_key(pe, st, x):
+    k = _plain_known(pe, st, x)
+    if k is None:
+        raise _Abort("top", "sorting values the evaluator cannot order")
+
+    def flat(v):
+        if v[0] in ("tuple", "array"):
+            return tuple(flat(y) for y in v[1])
+        if v[0] == "int":
+            return v[2]
+        if v[0] in ("bool", "char"):
+            return v[1]
+        if v[0] == "str":
+            return v[1]
+        raise _Abort("top", "sorting values the evaluator cannot order")
+    return flat(k)
+
+
+@pmodel("std::slice::<impl [T]>::sort", "core::slice::<impl [T]>::sort_unstable", "std::slice::<impl [T]>::sort_by_key",
+        "core::slice::<impl [T]>::sort_unstable_by_key", "std::vec::Vec::<T, A>::dedup", "core::slice::<impl [T]>::binary_search")
+def _sort_family(pe, st, args, t):
+    nm = (t.get("callee") or "").rsplit("::", 1)[1]
+    r = args[0]
+    v = _deref(pe, st, r)
+    items = _seq_items(pe, v)
+    if r == TOP or r[0] != "ref" or items is None:
+        raise _Abort("top", "%s() on an unknown slice" % nm)
+    if nm == "binary_search":
+        keys = [_sort_key(pe, st, x) for x in items]
+        want = _sort_key(pe, st, args[1])
+        import bisect
+        i = bisect.bisect_left(keys, want)
+        if i < len(keys) and keys[i] == want:
+            if keys.count(want) > 1:
+                raise _Abort("top", "binary_search with duplicate keys (which match is found is unspecified)")
+            return ("adt", RESULT, 0, "Ok", (mk_int("usize", i),))
+        return ("adt", RESULT, 1, "Err", (mk_int("usize", i),))
+    if nm == "dedup":
+        out = []
+        for x in items:
+            if not out or _plain_known(pe, st, out[-1]) != _plain_known(pe, st, x) or _plain_known(pe, st, x) is None:
+                out.append(x)
+        _vec_set(pe, st, r, out)
+        return UNIT
+    if nm in ("sort", "sort_unstable"):
+        keyed = [(_sort_key(pe, st, x), i, x) for i, x in enumerate(items)]
+    else:
+        def kf(x):
+            k = pe.invoke_closure(st, args[1], [("ref", ("const", x))])
+            if k != TOP and k[0] == "adt" and k[1].endswith("cmp::Reverse"):
+                inner = _sort_key(pe, st, k[4][0])
+                return _Rev(inner)
+            return _sort_key(pe, st, k)
+        keyed = [(kf(x), i, x) for i, x in enumerate(items)]
+    if "unstable" in nm and len({repr(k) for k, _, _ in keyed}) != len(keyed):
+        raise _Abort("top", "unstable sort with equal keys (order unspecified)")
+    keyed.sort(key=lambda e: (e[0], e[1]))
+    new_items = [x for _, _, x in keyed]
+    if v[0] in ("harr", "hview") or r[1][0] != "place":
+        if v[0] == "harr":
+            for i, x in enumerate(new_items):
+                pe.heap.put(v, i, x)
+        elif v[0] == "hview":
+            for i, x in enumerate(new_items):
+                pe.heap.put(("harr", v[1]), v[2] + i, x)
+        else:
+            raise _Abort("top", "sort of a constant slice")
+    else:
+        base = r[1]
+        for i, x in enumerate(new_items):
+            pe.store_ptr(st, ("place", base[1], base[2], tuple(base[3]) + ({"cidx": i, "fe": False},)), x)
+    return UNIT
+
+
+class _Rev:
+    """ordering wrapper for cmp::Reverse keys"""
+
+    def __init__(self, k):
+        self.k = k
+
+    def __lt__(self, o):
+        return o.k < self.k
+
+    def __eq__(self, o):
+        return isinstance(o, _Rev) and o.k == self.k
+
+    def __repr__(self):
+        return "Rev(%r)" % (self.k,)
+
+
+@pmodel("core::str::<impl str>::parse")
+def _str_parse(pe, st, args, t):
+    from .fold import INT_BITS as IB
+    gen = t.get("generics") or []
+    ty = gen[0] if gen else None
+    if ty not in IB:
+        raise _Abort("top", "parse::<%s>() is not modelled" % ty)
+    return PMODELS["core::num::<impl %s>::from_str_radix" % (ty if "core::num::<impl %s>::from_str_radix" % ty in PMODELS else "u64")](
+        pe, st, [args[0], mk_int("u32", 10)], t) if ("core::num::<impl %s>::from_str_radix" % ty) in PMODELS else _parse_generic(pe, st, args[0], ty)
+
+
+def _parse_generic(pe, st, a, ty):
+    raise _Abort("top", "parse::<%s>() is not modelled" % ty)
+
+
+@pmodel("core::str::<impl str>::find", "core::str::<impl str>::rfind", "core::str::<impl str>::split_once")
+def _str_find(pe, st, args, t):
+    nm = (t.get("callee") or "").rsplit("::", 1)[1]
+    s_, p_ = _pystr(pe, st, args[0]), _pattern(pe, st, args[1])
+    if s_ is None or p_ is None:
+        raise _Abort("top", "%s() on an unknown string or pattern" % nm)
+    i = s_.rfind(p_) if nm == "rfind" else s_.find(p_)
+    if i < 0:
+        return NONE
+    if nm == "split_once":
+        return some(("tuple", (("ref", ("const", ("str", s_[:i]))), ("ref", ("const", ("str", s_[i + len(p_):]))))))
+    return some(mk_int("usize", len(s_[:i].encode())))
+
+
+@pmodel("core::str::<impl str>::split", "core::str::<impl str>::lines", "core::str::<impl str>::split_whitespace")
+def _str_split(pe, st, args, t):
+    nm = (t.get("callee") or "").rsplit("::", 1)[1]
+    s_ = _pystr(pe, st, args[0])
+    if s_ is None:
+        raise _Abort("top", "%s() of an unknown string" % nm)
+    if nm == "split":
+        p_ = _pattern(pe, st, args[1])
+        if not p_:
+            raise _Abort("top", "split() with an unknown or empty pattern")
+        parts = s_.split(p_)
+    elif nm == "lines":
+        if any(ord(c) > 127 for c in s_) or "\r" in s_:
+            raise _Abort("top", "lines() of text with carriage returns is not modelled")
+        parts = s_.split("\n")
+        if parts and parts[-1] == "":
+            parts.pop()
+    else:
+        if any(ord(c) > 127 for c in s_):
+            raise _Abort("top", "split_whitespace() of non-ASCII text is not modelled")
+        parts = s_.split()
+    return ("iter", tuple(("ref", ("const", ("str", x))) for x in parts), 0)
+
+
+@pmodel("std::string::String::truncate", "std::string::String::insert", "std::string::String::insert_str", "std::string::String::clear")
+def _string_edit(pe, st, args, t):
+    nm = (t.get("callee") or "").rsplit("::", 1)[1]
+    r = args[0]
+    s_ = _pystr(pe, st, r)
+    if r == TOP or r[0] != "ref" or s_ is None:
+        raise _Abort("top", "String::%s on an unknown string" % nm)
+    if nm == "clear":
+        pe.store_ptr(st, r[1], ("string", ()))
+        return UNIT
+    i = args[1]
+    if i == TOP or i[0] != "int":
+        raise _Abort("top", "String::%s with an unknown index" % nm)
+    b = s_.encode()
+    if nm == "truncate" and i[2] >= len(b):
+        return UNIT
+    if i[2] > len(b):
+        raise _Abort("diverge", "String::%s(%d) beyond the end" % (nm, i[2]))
+    try:
+        head, tail = b[:i[2]].decode(), b[i[2]:].decode()
+    except UnicodeDecodeError:
+        raise _Abort("diverge", "String::%s(%d) not on a char boundary" % (nm, i[2]))
+    if nm == "truncate":
+        pe.store_ptr(st, r[1], _mkstring(head))
+        return UNIT
+    ins = _pattern(pe, st, args[2])
+    if ins is None:
+        raise _Abort("top", "String::%s of unknown text" % nm)
+    pe.store_ptr(st, r[1], _mkstring(head + ins + tail))
+    return UNIT
+
+
+def _u8_model(name, fn):
+    @pmodel("core::num::<impl u8>::%s" % name)
+    def f(pe, st, args, t):
+        c = _deref_all(pe, st, args[0])
+        if c == TOP or c[0] != "int":
+            raise _Abort("top", "u8::%s of an unknown byte" % name)
+        return fn(c[2])
+    return f
+
+
+_u8_model("is_ascii_hexdigit", lambda b: mk_bool(chr(b) in "0123456789abcdefABCDEF"))
+_u8_model("is_ascii_whitespace", lambda b: mk_bool(chr(b) in " \t\n\x0c\r"))
+_u8_model("is_ascii_punctuation", lambda b: mk_bool(b < 128 and chr(b) in "!\"#$%&'()*+,-./:;<=>?@[\\]^_`{|}~"))
+_u8_model("is_ascii_graphic", lambda b: mk_bool(33 <= b <= 126))
+_u8_model("is_ascii_control", lambda b: mk_bool(b < 32 or b == 127))
+_u8_model("to_ascii_uppercase", lambda b: mk_int("u8", b - 32 if 97 <= b <= 122 else b))
+_u8_model("to_ascii_lowercase", lambda b: mk_int("u8", b + 32 if 65 <= b <= 90 else b))
+
+
+def _overflowing(name, pyop):
+    names = ["core::num::<impl %s>::overflowing_%s" % (ty, name) for ty in
+             ("usize", "u8", "u16", "u32", "u64", "u128", "isize", "i8", "i16", "i32", "i64", "i128")]
+
+    @pmodel(*names)
+    def f(pe, st, args, t):
+        a, b = args
+        if a == TOP or b == TOP or a[0] != "int" or b[0] != "int":
+            return TOP
+        from .fold import ty_range
+        lo, hi = ty_range(a[1])
+        x = pyop(a[2], b[2])
+        return ("tuple", (mk_int(a[1], (x - lo) % (hi - lo + 1) + lo), mk_bool(not lo <= x <= hi)))
+    return f
+
+
+_overflowing("add", lambda x, y: x + y)
+_overflowing("sub", lambda x, y: x - y)
+_overflowing("mul", lambda x, y: x * y)
 
 
 @pmodel("std::iter::Iterator::scan")
@@ -1478,6 +1804,69 @@ def _tuple_eq(pe, st, args, t):
         raise _Abort("top", "equality of values the evaluator cannot compare")
     eq = a == b
     return mk_bool(eq if (t.get("callee") or "").endswith("::eq") else not eq)
+
+
+@pmodel("std::cmp::PartialOrd::gt", "std::cmp::PartialOrd::lt", "std::cmp::PartialOrd::ge", "std::cmp::PartialOrd::le",
+        "core::cmp::PartialOrd::gt", "core::cmp::PartialOrd::lt", "core::cmp::PartialOrd::ge", "core::cmp::PartialOrd::le")
+def _partial_ord_dispatch(pe, st, args, t):
+    return _partial_ord(pe, st, args, t)
+
+
+def _partial_ord(pe, st, args, t):
+    nm = (t.get("callee") or t.get("declared") or "").rsplit("::", 1)[1]
+    a, b = _deref_all(pe, st, args[0]), _deref_all(pe, st, args[1])
+
+    def key(v):
+        if v == TOP:
+            raise _Abort("top", "ordering of an unknown value")
+        if v[0] == "int":
+            return (1, v[2])
+        if v[0] in ("bool", "char"):
+            return (1, v[1])
+        if v[0] == "str":
+            return (1, v[1].encode())
+        if v[0] == "string" and all(isinstance(x, int) for x in v[1]):
+            return (1, "".join(chr(x) for x in v[1]).encode())
+        if v[0] in ("tuple", "array"):
+            return (1, tuple(key(_deref_all(pe, st, x)) for x in v[1]))
+        if v[0] == "adt" and v[1] in ("std::option::Option", "core::option::Option"):
+            return (0,) if v[3] == "None" else (1, key(_deref_all(pe, st, v[4][0])))
+        if v[0] == "enum" and v[1] in ("std::option::Option", "core::option::Option"):
+            return (0,)
+        raise _Abort("top", "ordering of values the evaluator cannot order")
+    ka, kb = key(a), key(b)
+    return mk_bool({"gt": ka > kb, "lt": ka < kb, "ge": ka >= kb, "le": ka <= kb}[nm])
+
+
+@pmodel("core::slice::<impl [T]>::rchunks")
+def _rchunks(pe, st, args, t):
+    r, n = args
+    v = _deref(pe, st, r)
+    items = _seq_items(pe, v)
+    if items is None or n == TOP or n[0] != "int":
+        raise _Abort("top", "rchunks() on an unknown slice")
+    if n[2] == 0:
+        raise _Abort("diverge", "rchunks(0)")
+    out, hi = [], len(items)
+    while hi > 0:
+        lo = max(0, hi - n[2])
+        out.append(("ref", ("const", ("array", tuple(items[lo:hi])))))
+        hi = lo
+    return ("iter", tuple(out), 0)
+
+
+@pmodel("<std::string::String as std::ops::Add<&str>>::add", "<std::string::String as std::ops::AddAssign<&str>>::add_assign")
+def _string_add(pe, st, args, t):
+    assign = (t.get("callee") or "").endswith("add_assign")
+    a = _deref(pe, st, args[0]) if assign else args[0]
+    ta, tb = _str_tokens(pe, st, a), _str_tokens(pe, st, args[1])
+    if ta is None or tb is None:
+        raise _Abort("top", "String + &str on unknown strings")
+    v = ("string", tuple(ta) + tuple(tb))
+    if assign:
+        pe.store_ptr(st, args[0][1], v)
+        return UNIT
+    return v
 
 
 @pmodel("core::slice::<impl [T]>::windows")
@@ -2018,6 +2407,12 @@ def _join(pe, st, args, t):
     items = _seq_items(pe, v)
     if items is None or sep is None:
         raise _Abort("top", "join() of an unknown slice")
+    if items and not sep and all(_seq_items(pe, _deref_all(pe, st, x)) is not None for x in items) \
+            and not any(_str_tokens(pe, st, x) is not None for x in items):
+        flat = []
+        for x in items:
+            flat += _seq_items(pe, _deref_all(pe, st, x))
+        return _vec_of(pe, flat)  # concat() of slices of values
     out = []
     for i, x in enumerate(items):
         toks = _str_tokens(pe, st, x)
@@ -2054,15 +2449,16 @@ def _slice_len(pe, st, args, t):
     raise _Abort("top", "len() of an unknown slice")
 
 
-@pmodel("std::array::<impl std::clone::Clone for [T; N]>::clone")
+@pmodel("std::array::<impl std::clone::Clone for [T; N]>::clone", "<std::vec::Vec<T, A> as std::clone::Clone>::clone",
+        "<std::vec::Vec<T> as std::clone::Clone>::clone")
 def _array_clone(pe, st, args, t):
     v = _deref(pe, st, args[0])
     if v != TOP and v[0] == "tok":
         return v  # an opaque value: its clone is the same value
     if v != TOP and v[0] == "harr":
-        return pe.heap.clone(v)
+        return _deep_clone(pe, v)
     if v != TOP and v[0] == "array":
-        return v
+        return _deep_clone(pe, v) if _has_heap(v) else v
     raise _Abort("top", "clone of an unknown array")
 
 
@@ -2083,11 +2479,52 @@ def _add_ref(pe, st, args, t):
     return mk_int("usize", r)
 
 
+def _deep_clone(pe, v, depth=0):
+    """a copy of v that shares no heap array with it (heap arrays are the only mutable shared objects of the value model)"""
+    if v == TOP or depth > 8:
+        return v
+    k = v[0]
+    if k == "harr":
+        h = pe.heap.clone(v)
+        ent = pe.heap.arrs[h[1]]
+        ent[1] = _deep_clone(pe, ent[1], depth + 1)
+        for i, x in list(ent[2].items()):
+            if x != TOP and x[0] in ("harr", "array", "tuple", "adt"):
+                ent[2][i] = _deep_clone(pe, x, depth + 1)
+        return h
+    if k in ("array", "tuple"):
+        return (k, tuple(_deep_clone(pe, x, depth + 1) for x in v[1]))
+    if k == "adt":
+        return v[:4] + (tuple(_deep_clone(pe, x, depth + 1) for x in v[4]),)
+    return v
+
+
+def _has_heap(v, depth=0):
+    if v == TOP or depth > 8:
+        return False
+    if v[0] == "harr":
+        return True
+    if v[0] in ("array", "tuple"):
+        return any(_has_heap(x, depth + 1) for x in v[1])
+    if v[0] == "adt":
+        return any(_has_heap(x, depth + 1) for x in v[4])
+    return False
+
+
 @pmodel("std::vec::from_elem")
 def _vec_from_elem(pe, st, args, t):
     elem, n = args
     if n == TOP or n[0] != "int":
         raise _Abort("top", "vec![x; n] with unknown n")
+    if _has_heap(elem):
+        # every element is its own clone of `elem` (elements that own vectors must not share them)
+        items = [_deep_clone(pe, elem) for _ in range(n[2])]
+        if n[2] <= 16:
+            return ("array", tuple(items))
+        h = pe.heap.new(n[2], TOP)
+        for i, x in enumerate(items):
+            pe.heap.put(h, i, x)
+        return h
     if n[2] <= 16 and not (elem != TOP and elem[0] == "int"):
         return ("array", (elem,) * n[2])  # a short vector of structured values: a plain value (merges under symbolic branches)
     return pe.heap.new(n[2], elem)
@@ -2132,7 +2569,7 @@ def _vec_resize(pe, st, args, t):
     old = ent[0]
     if n[2] > old:
         for i in range(old, n[2]):
-            ent[2][i] = val
+            ent[2][i] = _deep_clone(pe, val) if _has_heap(val) else val
     else:
         for i in [k for k in ent[2] if k >= n[2]]:
             del ent[2][i]
@@ -2150,6 +2587,10 @@ def _vec_index_mut(pe, st, args, t):
 def _vec_index(pe, st, args, t):
     v = _deref(pe, st, args[0])
     i = args[1]
+    if v != TOP and v[0] == "harr" and i != TOP and i[0] == "int" and args[0][1][0] != "place":
+        if not 0 <= i[2] < pe.heap.length(v):
+            raise _Abort("diverge", "index %d out of range for a vector of length %d" % (i[2], pe.heap.length(v)))
+        return ("ref", ("const", pe.heap.get(v, i[2])))  # read through a reference that is not a place (a captured vector)
     if v != TOP and v[0] == "harr" and i != TOP and i[0] == "int" and args[0][1][0] == "place":
         if not 0 <= i[2] < pe.heap.length(v):
             raise _Abort("diverge", "index %d out of range for a vector of length %d" % (i[2], pe.heap.length(v)))
@@ -2401,7 +2842,9 @@ def _opt_mutators(pe, st, args, t):
     return inner
 
 
-@pmodel("std::option::Option::<T>::copied", "std::option::Option::<T>::cloned", "std::option::Option::<T>::xor",
+@pmodel("std::option::Option::<T>::copied", "std::option::Option::<T>::cloned", "std::option::Option::<&T>::copied",
+        "std::option::Option::<&T>::cloned", "std::option::Option::<&mut T>::copied", "std::option::Option::<&mut T>::cloned",
+        "std::option::Option::<T>::xor",
         "std::option::Option::<T>::map_or_else", "std::option::Option::<T>::as_mut", "std::option::Option::<T>::unwrap_unchecked",
         "std::option::Option::<T>::inspect")
 def _opt_more(pe, st, args, t):
@@ -2737,6 +3180,8 @@ def _render_disp(tok):
         # no sign/alternate/zero-pad, no width), with or without the precision-present bit
         if flags & ~((1 << 28) | (3 << 29) | (1 << 31)) != 0x20:
             return None
+        if flags & (1 << 28) and prec is None:
+            prec = 0  # the precision-present bit without a stored value is a precision of zero (`{:.0}`)
     if v == TOP or (width not in (None, 0)):
         return None
     if v[0] == "int" and prec is None:
@@ -2911,7 +3356,7 @@ def _from_str_radix(ty):
     return f
 
 
-for _ty in ("u8", "u16", "u32", "u64", "usize", "i32", "i64"):
+for _ty in ("u8", "u16", "u32", "u64", "u128", "usize", "i8", "i16", "i32", "i64", "i128", "isize"):
     PMODELS["core::num::<impl %s>::from_str_radix" % _ty] = _from_str_radix(_ty)
 
 
@@ -3175,7 +3620,8 @@ def _string_len(pe, st, args, t):
     return mk_int("usize", len("".join(chr(c) for c in toks).encode()))
 
 
-@pmodel("<T as std::string::ToString>::to_string")
+@pmodel("<T as std::string::ToString>::to_string", "std::string::ToString::to_string", "<str as std::string::ToString>::to_string",
+        "<std::string::String as std::string::ToString>::to_string", "<char as std::string::ToString>::to_string")
 def _to_string(pe, st, args, t):
     v = _deref(pe, st, args[0])
     if v != TOP and v[0] == "int":
@@ -3282,6 +3728,47 @@ def _arguments_new(pe, st, args, t):
     return ("fmtargs", tuple(bs), arr[1])
 
 
+def _pad(txt, flags, width, numeric):
+    """apply fill/alignment/width of a packed FormattingOptions word to an already rendered value"""
+    width = width or 0
+    if len(txt) >= width:
+        return txt
+    fill = chr(flags & 0x1FFFFF) if flags & 0x1FFFFF else " "
+    if flags & (1 << 24) and numeric:
+        # sign-aware zero padding: after the sign / radix prefix
+        sign = ""
+        body = txt
+        if body[:1] in "+-":
+            sign, body = body[0], body[1:]
+        if body[:2] in ("0x", "0b", "0o"):
+            sign, body = sign + body[:2], body[2:]
+        return sign + body.rjust(width - len(sign), "0")
+    align = (flags >> 29) & 3
+    if align == 3:
+        align = 1 if numeric else 0
+    if align == 0:
+        return txt.ljust(width, fill)
+    if align == 1:
+        return txt.rjust(width, fill)
+    total = width - len(txt)
+    return fill * (total // 2) + txt + fill * (total - total // 2)
+
+
+@pmodel("core::fmt::rt::Argument::<'_>::new_upper_hex")
+def _new_upper_hex(pe, st, args, t):
+    return ("fmtarg", _deref_all(pe, st, args[0]), "X")
+
+
+@pmodel("core::fmt::rt::Argument::<'_>::new_binary")
+def _new_binary(pe, st, args, t):
+    return ("fmtarg", _deref_all(pe, st, args[0]), "b")
+
+
+@pmodel("core::fmt::rt::Argument::<'_>::new_octal")
+def _new_octal(pe, st, args, t):
+    return ("fmtarg", _deref_all(pe, st, args[0]), "o")
+
+
 @pmodel("std::fmt::format")
 def _fmt_format(pe, st, args, t):
     from .mir import decode_template
@@ -3297,12 +3784,23 @@ def _fmt_format(pe, st, args, t):
             if idx >= len(a[2]) or a[2][idx] == TOP or a[2][idx][0] != "fmtarg":
                 raise _Abort("top", "format placeholder without argument")
             v = a[2][idx][1]
-            if len(a[2][idx]) > 2 and a[2][idx][2] == "x" and v != TOP and v[0] == "int":
-                txt = format(v[2], "x")
-                width = piece[3] or 0
-                zero = piece[2] is not None and (piece[2] & (1 << 24))
-                txt = txt.rjust(width, "0" if zero else " ")
-                out += [ord(c) for c in txt]
+            kind = a[2][idx][2] if len(a[2][idx]) > 2 else None
+            if kind in ("x", "X", "b", "o") and v != TOP and v[0] == "int" and v[2] >= 0:
+                txt = format(v[2], kind)
+                fl = piece[2] or 0
+                if fl & (1 << 23):
+                    txt = {"x": "0x", "X": "0x", "b": "0b", "o": "0o"}[kind] + txt
+                out += [ord(c) for c in _pad(txt, fl, piece[3], numeric=True)]
+            elif v != TOP and v[0] == "int" and kind is None and (piece[2] is not None or piece[3] is not None) and piece[4] is None:
+                fl = piece[2] or 0
+                txt = str(v[2])
+                if fl & (1 << 21) and v[2] >= 0:
+                    txt = "+" + txt
+                padded = _pad(txt, fl, piece[3], numeric=True)
+                if padded is None:
+                    out.append(("disp", v, piece[2], piece[3], piece[4]))
+                else:
+                    out += [ord(c) for c in padded]
             elif v != TOP and v[0] == "char":
                 out.append(v[1])
             elif v != TOP and v[0] == "int" and piece[2] is None and piece[3] is None:
